@@ -367,6 +367,10 @@ Proof.
   - destruct IH as [IH|[r IH]]; [left; f_equal; exact IH | right; exists r; cbn; f_equal; exact IH].
 Qed.
 
+Lemma base_feature_spec_l : forall s,
+  no_tilde (base_feature s) /\ (s = base_feature s \/ exists r, s = (base_feature s ++ "~" ++ r)%string).
+Proof. intros s. split; [apply base_feature_no_tilde | apply base_feature_split]. Qed.
+
 Lemma base_feature_sub : forall f x, no_tilde f -> base_feature (f ++ "~" ++ x) = f.
 Proof.
   induction f as [|c f IH]; intros x H; cbn; [reflexivity|]. destruct H as [Hc Hf].
